@@ -508,6 +508,10 @@ def make_seeds(f, S, dom, bump=None):
         if "hedId" in dom[sec] and rng:
             ev(p, "hedIdRange", "below", "hedId", ["HED_%07d" % (rng[0] - 1)], num=rng[0] - 1)
             ev(p, "hedIdRange", "above", "hedId", ["HED_%07d" % (rng[1] + 1)], num=rng[1] + 1)
+            if rng[0] > 0:
+                ev(p, "hedIdRange", "zero", "hedId", ["HED_0000000"], num=0)          # boundary: the smallest id there is
+            if rng[0] > 1:
+                ev(p, "hedIdRange", "one", "hedId", ["HED_0000001"], num=1)
             ev(p, "hedIdRange", "ctl-inside", "hedId", ["HED_%07d" % (rng[1] - k % 1000)], num=rng[1] - k % 1000)
     return pos, out, skipped
 
